@@ -285,6 +285,20 @@ class Gen:
             if form == "positional":
                 return ast.Call(func=fn, args=args, keywords=[])
             return ast.Call(func=fn, args=args[:-1], keywords=[ast.keyword(arg=params[-1], value=clone(args[-1]))])
+        if r.random() < 0.08:
+            # python's call syntax in full: arguments spread from a display with *, bound from a mapping with ** - which parameter
+            # gets what is only known once the display / mapping is looked into
+            form = r.choice(["star-all", "star-tail", "mapping-tail", "star-one"])
+            self.feat.add("called-lambda-" + form)
+            tup = lambda xs: ast.Tuple(elts=list(xs), ctx=ast.Load())  # noqa
+            if form == "star-all":
+                return ast.Call(func=lam(params, body), args=[ast.Starred(value=tup(args), ctx=ast.Load())], keywords=[])
+            if form == "star-tail":
+                return ast.Call(func=lam(params, body), args=args[:-1] + [ast.Starred(value=tup(args[-1:]), ctx=ast.Load())], keywords=[])
+            if form == "mapping-tail":
+                return ast.Call(func=lam(params, body), args=args[:-1], keywords=[ast.keyword(arg=None, value=ast.Dict(keys=[C(params[-1])], values=[args[-1]]))])
+            # as many written arguments as parameters, one of them starred and standing for exactly one value
+            return ast.Call(func=lam(params, body), args=[ast.Starred(value=ast.List(elts=[args[0]], ctx=ast.Load()), ctx=ast.Load())] + args[1:], keywords=[])
         if k == 2 and r.random() < self.called_kw:
             self.feat.add("called-lambda-kw")
             return ast.Call(func=lam(params, body), args=[args[0]], keywords=[ast.keyword(arg=params[1], value=args[1])])
@@ -341,11 +355,17 @@ class Gen:
             self.feat.add("literal-projection")
             n = r.randint(1, 3)
             kind = r.random()
-            if kind < 0.4:
-                t = ast.Tuple(elts=[self.num(env, d - 1) for _ in range(n)], ctx=ast.Load())
-                return sub(t, self.selector(env, n, d))
             if kind < 0.7:
-                t = ast.List(elts=[self.num(env, d - 1) for _ in range(n)], ctx=ast.Load())
+                elts = [self.num(env, d - 1) for _ in range(n)]
+                if r.random() < 0.12:
+                    # some neighbouring elements are spread from an inner display (*(..), *[..]): the display still has n elements
+                    # for python, its written element list is shorter (or as long, with one starred element standing for one)
+                    i = r.randrange(n)
+                    j = r.randint(i + 1, n)
+                    inner = (ast.Tuple if r.random() < 0.5 else ast.List)(elts=elts[i:j], ctx=ast.Load())
+                    elts = elts[:i] + [ast.Starred(value=inner, ctx=ast.Load())] + elts[j:]
+                    self.feat.add("literal-with-starred-elements")
+                t = (ast.Tuple if kind < 0.4 else ast.List)(elts=elts, ctx=ast.Load())
                 return sub(t, self.selector(env, n, d))
             keys = r.sample(["a", "b", "c", "pt"], n)
             t = self.with_lookalike_keys(ast.Dict(keys=[C(k) for k in keys], values=[self.num(env, d - 1) for _ in keys]))
